@@ -80,7 +80,7 @@ def rule_r22(chk, facts, rule='C03-R22'):
 def rule_r23(chk, facts, rule='C03-R23'):
     chk.rule(rule, 'tools: a function that fills its out-parameters from fread() and returns no status does not return '
              'when the read failed: every "fread() != n" edge ends in a call that does not return (a truncated file would '
-             'otherwise be processed with the values of the previous record, for ever)', min_instances=3)
+             'otherwise be processed with the values of the previous record, for ever)', min_instances=2)
     seen = set()
     n = 0
     for exe in ('plist', 'pbind', 'p2bin', 'p2hex', 'alink'):
